@@ -37,10 +37,19 @@ use crate::subcommands::{SubCmdKind, SubCommand};
 use crate::utils::bat::assets::list_languages;
 use crate::utils::bat::output::{OutputType, PagingMode};
 
+// Verification hook (compiled only with --cfg dandavison_delta_verif): lets an in-process test
+// harness observe a fatal error (as a panic it raises itself) instead of losing the process.
+#[cfg(dandavison_delta_verif)]
+pub static VERIF_FATAL_HOOK: std::sync::OnceLock<fn(&str)> = std::sync::OnceLock::new();
+
 pub fn fatal<T>(errmsg: T) -> !
 where
     T: AsRef<str> + std::fmt::Display,
 {
+    #[cfg(dandavison_delta_verif)]
+    if let Some(hook) = VERIF_FATAL_HOOK.get() {
+        hook(errmsg.as_ref());
+    }
     #[cfg(not(test))]
     {
         eprintln!("{errmsg}");
